@@ -77,7 +77,7 @@ why every buffered log of the model holds a single entry -/
 theorem batch_size_tied_to_go_text : Gen.batchSize = 1 := gen_batchSize
 
 /-- the replicator of the Go text of this run looks at EVERY hash a fetched entry names (no early exit
-from the loop that queues them), as the model's `fetchOk` does -/
+from the loop that queues them), as the model's `fetched` does -/
 theorem parent_walk_tied_to_go_text : Gen.parentWalkExits = 0 := gen_parentWalk_complete
 
 end Orbit.C10
